@@ -6,7 +6,7 @@ from ..core import rule
 from ..index import AnalysisError, dotted, src, walk_no_nested, names_in
 from ..cfg import CFG, OTHER
 from ..consteval import run_function, Unfoldable
-from ..util import node_calls, own_expr, explore, mk_atoms
+from ..util import node_calls, own_expr, explore, mk_atoms, last_name
 from .slots import MOLECULE, SEQUTILS, FRAGMENT
 
 FN = 'Molecule.get_consensus'
@@ -229,6 +229,56 @@ def r4(ctx):
              ('higher quality wins, quality tie with different bases -> N, single call kept even at quality 0' if not bad else f'differs, e.g. {bad[0]}'), key='arbitration',
              witness=bad[0] if bad else None, what='pick_best_base_call: arbitration differs from "higher quality wins / tie -> N"')
     ctx.exhaustive['C13-R4'] = True
+
+
+@rule('C13', 'C13-R5', 'the base and the quality a read contributes at a reference position are taken from the same query position of the read as it is stored '
+                       '(no re-ordering of one of the two), and the plain (non dove-safe) mode really is the default mode')
+def r5(ctx):
+    g = ctx.fn(SEQUTILS, 'read_to_consensus_dict')
+    comps = [c for c in walk_no_nested(g) if isinstance(c, ast.DictComp)]
+    if len(comps) != 1:
+        raise AnalysisError('read_to_consensus_dict: the per-position dictionary comprehension was not found')
+    c = comps[0]
+    rd = g.args.args[0].arg
+    gen = c.generators[0]
+    qpos = gen.target.elts[0].id if isinstance(gen.target, ast.Tuple) and isinstance(gen.target.elts[0], ast.Name) else None
+    pairs_ok = isinstance(gen.iter, ast.Call) and src(gen.iter.func) == f'{rd}.get_aligned_pairs'
+    defs = {}
+    for s_ in walk_no_nested(g):
+        if isinstance(s_, ast.Assign) and len(s_.targets) == 1 and isinstance(s_.targets[0], ast.Name):
+            defs.setdefault(s_.targets[0].id, []).append(src(s_.value))
+
+    def source_of(e):
+        """(set of sources of the indexed array, index source) of `array[index]`"""
+        if not isinstance(e, ast.Subscript):
+            return None, None
+        base = e.value
+        srcs = {src(base)}
+        if isinstance(base, ast.Name) and base.id in defs:
+            srcs = set(defs[base.id])
+        return srcs, src(e.slice)
+    ok = False
+    detail = 'value is not a (base, quality, ...) tuple'
+    if isinstance(c.value, ast.Tuple) and len(c.value.elts) >= 2:
+        bs, bi = source_of(c.value.elts[0])
+        qs, qi = source_of(c.value.elts[1])
+        ok = pairs_ok and qpos is not None and bs == {f'{rd}.query_sequence'} and qs == {f'{rd}.query_qualities'} and bi == qpos and qi == qpos
+        detail = f'base <- {sorted(bs) if bs else None}[{bi}], quality <- {sorted(qs) if qs else None}[{qi}] with {qpos} from {src(gen.iter)[:50]}'
+    ctx.emit('C13-R5', ok, SEQUTILS, c, 'read_to_consensus_dict: ' + detail + ('' if ok else ' - base and quality are not both the stored arrays of the read at the aligned query position'),
+             key='base-and-quality-same-position', what='read_to_consensus_dict: base and quality of a call come from different query positions')
+    # the default mode: with dove_safe False no window is applied and single-end fragments are not refused
+    f = ctx.fn(SEQUTILS, 'get_consensus_dictionaries')
+    rcalls = [c_ for c_ in walk_no_nested(f) if isinstance(c_, ast.Call) and last_name(dotted(c_.func) or '') == 'read_to_consensus_dict' and len(c_.args) >= 3]
+    if not rcalls:
+        raise AnalysisError('get_consensus_dictionaries: read_to_consensus_dict calls not found')
+    names = {a_.id for c_ in rcalls for a_ in c_.args[1:3] if isinstance(a_, ast.Name)}
+    rs = explore(f.body, mk_atoms({'dove_safe': False}), names=names, upto=rcalls[0])
+    vals = {tuple(sorted((k_, src(v_)) for k_, v_ in r['env'].items())) for r in rs}
+    ok = bool(rs) and all(all(src(v_) == 'None' for v_ in r['env'].values()) and len(r['env']) == len(names) for r in rs)
+    raises = [r for r in explore(f.body, mk_atoms({'dove_safe': False, 'R1 is None': False, 'R2 is None': True})) if r['kind'] == 'raise']
+    ctx.emit('C13-R5', ok and not raises, SEQUTILS, rcalls[0], 'with dove_safe=False the extraction window is (None, None) on every path and a missing mate is accepted' if ok and not raises else
+             f'with dove_safe=False the window is {sorted(vals)[:2]} / a missing mate raises on {len(raises)} path(s): the default mode behaves like the dove-safe mode',
+             key='plain-mode-is-default', what='get_consensus_dictionaries: the dove-safe branch is taken although dove_safe is False')
 
 
 META = {
